@@ -387,13 +387,17 @@ func (t *Value) Collect() {
 	// It is kept as a streaming average / dev processus for the moment (not the most
 	// optimized).
 	// streaming dev algo taken from http://www.johndcook.com/blog/standard_deviation/
-	t.sum = 0
+	// The statistics are those of the stored values only: every read-out
+	// starts afresh instead of continuing the previous one.
+	t.n = 0
+	t.min, t.max, t.sum, t.dev = 0, 0, 0, 0
+	t.oldM, t.newM, t.oldS, t.newS = 0, 0, 0, 0
 	for _, newTime := range t.store {
-		// nothings takes 0 ms to complete, so we know it's the first time
+		// the first value is both the minimum and the maximum
 		if t.min > newTime || t.n == 0 {
 			t.min = newTime
 		}
-		if t.max < newTime {
+		if t.max < newTime || t.n == 0 {
 			t.max = newTime
 		}
 
